@@ -282,6 +282,7 @@ func (am *AccountingManager) StartSession(session *AccountingSession) error {
 	ctx, cancel := context.WithTimeout(am.ctx, 5*time.Second)
 	defer cancel()
 
+	verifCrashPoint("start.send.before", session.SessionID)
 	if err := am.client.SendAccounting(ctx, req); err != nil {
 		// Queue for retry
 		am.queuePendingRecord(req)
@@ -386,7 +387,9 @@ func (am *AccountingManager) sendAccountingStop(session *AccountingSession, term
 	ctx, cancel := context.WithTimeout(am.ctx, 5*time.Second)
 	defer cancel()
 
+	verifCrashPoint("stop.send.before", session.SessionID)
 	err := am.client.SendAccounting(ctx, req)
+	verifCrashPoint("stop.send.after", session.SessionID)
 	if err != nil {
 		// Queue for reliable delivery
 		am.queuePendingRecord(req)
@@ -472,7 +475,9 @@ func (am *AccountingManager) sendInterimUpdate(session *AccountingSession) {
 	ctx, cancel := context.WithTimeout(am.ctx, 5*time.Second)
 	defer cancel()
 
+	verifCrashPoint("interim.send.before", session.SessionID)
 	err := am.client.SendAccounting(ctx, req)
+	verifCrashPoint("interim.send.after", session.SessionID)
 
 	am.sessionsMu.Lock()
 	if err != nil {
@@ -575,7 +580,9 @@ func (am *AccountingManager) processPendingRecord(record *PendingAcctRecord) {
 	ctx, cancel := context.WithTimeout(am.ctx, 5*time.Second)
 	defer cancel()
 
+	verifCrashPoint("retry.send.before", record.Request.SessionID)
 	err := am.client.SendAccounting(ctx, record.Request)
+	verifCrashPoint("retry.send.after", record.Request.SessionID)
 	if err == nil {
 		// Success - remove from pending
 		am.pendingMu.Lock()
@@ -713,6 +720,7 @@ func (am *AccountingManager) sendAccountingStopSync(ctx context.Context, session
 		Class:          session.Class,
 	}
 
+	verifCrashPoint("drain.send.before", session.SessionID)
 	if err := am.client.SendAccounting(ctx, req); err != nil {
 		am.logger.Warn("Failed to send Accounting-Stop during drain",
 			zap.String("session_id", session.SessionID),
@@ -741,15 +749,19 @@ func (am *AccountingManager) persistActiveSession(session *AccountingSession) {
 		return
 	}
 
+	verifCrashPoint("persist-session.before", session.SessionID)
 	if err := os.WriteFile(path, data, 0600); err != nil {
 		am.logger.Debug("Failed to persist session", zap.Error(err))
 	}
+	verifCrashPoint("persist-session.after", session.SessionID)
 }
 
 // removePersistedSession removes a persisted session file
 func (am *AccountingManager) removePersistedSession(sessionID string) {
 	path := filepath.Join(am.persistPath, "sessions", sessionID+".json")
+	verifCrashPoint("remove-session.before", sessionID)
 	os.Remove(path)
+	verifCrashPoint("remove-session.after", sessionID)
 }
 
 // persistPendingRecords persists pending records to disk
@@ -767,9 +779,11 @@ func (am *AccountingManager) persistPendingRecords() error {
 		return fmt.Errorf("marshal pending records: %w", err)
 	}
 
+	verifCrashPoint("persist-pending.before", "")
 	if err := os.WriteFile(path, data, 0600); err != nil {
 		return fmt.Errorf("write pending records: %w", err)
 	}
+	verifCrashPoint("persist-pending.after", "")
 
 	am.logger.Info("Persisted pending accounting records", zap.Int("count", len(am.pendingRecords)))
 	return nil
@@ -833,13 +847,16 @@ func (am *AccountingManager) recoverOrphanedSessions() error {
 		}
 
 		ctx, cancel := context.WithTimeout(am.ctx, 5*time.Second)
+		verifCrashPoint("recover.send.before", session.SessionID)
 		if err := am.client.SendAccounting(ctx, req); err != nil {
 			am.queuePendingRecord(req)
 		}
 		cancel()
 
 		atomic.AddUint64(&am.orphanedRecovered, 1)
+		verifCrashPoint("recover.remove-session.before", session.SessionID)
 		os.Remove(path)
+		verifCrashPoint("recover.remove-session.after", session.SessionID)
 	}
 
 	// Recover pending records
@@ -869,7 +886,9 @@ func (am *AccountingManager) recoverOrphanedSessions() error {
 	am.pendingMu.Unlock()
 
 	am.logger.Info("Recovered pending accounting records", zap.Int("count", len(records)))
+	verifCrashPoint("recover.remove-pending.before", "")
 	os.Remove(pendingPath)
+	verifCrashPoint("recover.remove-pending.after", "")
 
 	return nil
 }
